@@ -64,6 +64,9 @@ struct Script {
   std::vector<uint32_t> syms;
   std::vector<Ev> evs;
   std::vector<bool> bits;
+  int natt = 0;            // kind fulla: num_attribute_data (1..3), attribute seam bits = hostile pseudo-random stream
+  uint64_t seam_seed = 0;  //   derived from this seed with probability seam_pct
+  int seam_pct = 50;
 };
 
 template <typename T, typename F>
@@ -74,7 +77,7 @@ static std::string join(const std::vector<T> &v, F f) {
   return s;
 }
 static std::string lhs_of(const Script &s) {
-  std::string t = s.full ? "full " : "core ";
+  std::string t = s.natt ? "fulla " : s.full ? "full " : "core ";
   t += S(s.a) + " " + S(s.nf) + " " + S(s.b) + " ";
   t += join(s.syms, [](uint32_t x) { return U(x); }) + " ";
   t += join(s.evs, [](const Ev &e) { return U(e.src) + ":" + U(e.spl) + ":" + U(e.edge); }) + " ";
@@ -99,8 +102,10 @@ struct ScriptedTD {
   uint32_t DecodeSymbol() { uint32_t r = si < syms.size() ? syms[si] : 0xdeadu; si++; return r; }
   void NewActiveCornerReached(CornerIndex) {}
   void MergeVertices(VertexIndex, VertexIndex) {}
-  bool DecodeAttributeSeam(int) { return false; }
-  void Done() {}
+  Rng seam_rng{0}; int seam_pct = 0; long seams_asked = 0;
+  bool DecodeAttributeSeam(int) { seams_asked++; return seam_rng.chance(seam_pct); }
+  bool done_called = false;
+  void Done() { done_called = true; }
 };
 
 struct RecordingTD;
@@ -178,7 +183,7 @@ static std::vector<char> header_bytes(const Script &s) {
   EncoderBuffer eb;
   EncodeVarint<uint32_t>((uint32_t)s.a, &eb);
   EncodeVarint<uint32_t>((uint32_t)s.nf, &eb);
-  eb.Encode((uint8_t)0);
+  eb.Encode((uint8_t)s.natt);
   EncodeVarint<uint32_t>((uint32_t)s.syms.size(), &eb);
   EncodeVarint<uint32_t>((uint32_t)s.b, &eb);
   EncodeVarint<uint32_t>((uint32_t)s.evs.size(), &eb);
@@ -198,7 +203,7 @@ static std::vector<char> header_bytes(const Script &s) {
   return v;
 }
 
-static std::string run_script(const Script &s, std::string *violation) {
+static std::string run_script(const Script &s, std::string *violation, std::string *extra = nullptr) {
   Mesh mesh;
   MeshEdgebreakerDecoder dec;
   DecoderOptions opts;
@@ -210,15 +215,28 @@ static std::string run_script(const Script &s, std::string *violation) {
   impl.Init(&dec);
   impl.traversal_decoder_.syms = s.syms;
   impl.traversal_decoder_.bits = s.bits;
+  impl.traversal_decoder_.seam_rng = Rng(s.seam_seed); impl.traversal_decoder_.seam_pct = s.seam_pct;
   int ret;
+  bool late_reject = false;
   if (s.full) {
     bytes = header_bytes(s);
     db.Init(bytes.data(), bytes.size(), DRACO_BITSTREAM_VERSION(2, 2));
-    if (!impl.DecodeConnectivity()) return "rej";
-    ret = (int)mesh.num_points();
+    if (!impl.DecodeConnectivity()) {
+      // with attribute data the (unmodelled) attribute stage can still fail after the connectivity was accepted:
+      // Done() is called exactly when DecodeConnectivity(int) succeeded
+      if (!(s.natt && impl.traversal_decoder_.done_called)) return "rej";
+      late_reject = true;
+    }
+    ret = s.natt ? impl.corner_table_->num_vertices() : (int)mesh.num_points();
     // the mesh handed to the user: every face index must be a point
-    for (FaceIndex f(0); f < mesh.num_faces() && violation->empty(); ++f)
-      for (int k = 0; k < 3; k++) if (mesh.face(f)[k].value() >= mesh.num_points()) *violation = "mesh face " + S(f.value()) + " references point >= num_points";
+    // (model: eb_decode_mesh = (returned count, the corner-to-vertex array); C03_eb_faces_valid)
+    for (FaceIndex f(0); !late_reject && f < mesh.num_faces() && violation->empty(); ++f)
+      for (int k = 0; k < 3; k++) {
+        if (mesh.face(f)[k].value() >= mesh.num_points()) *violation = "mesh face " + S(f.value()) + " references point >= num_points";
+        else if (!s.natt && mesh.face(f)[k].value() != impl.corner_table_->corner_to_vertex_map_[CornerIndex(3 * f.value() + k)].value())
+          *violation = "mesh face " + S(f.value()) + " differs from the corner table";
+      }
+    if (!late_reject && violation->empty() && (int)mesh.num_faces() != impl.corner_table_->num_faces()) *violation = "mesh face count differs from the corner table";
   } else {
     bytes.assign(8, 0);
     db.Init(bytes.data(), bytes.size(), DRACO_BITSTREAM_VERSION(2, 2));
@@ -234,14 +252,37 @@ static std::string run_script(const Script &s, std::string *violation) {
     ret = impl.DecodeConnectivity((int)s.syms.size());
     if (ret == -1) return "rej";
   }
+  if (s.natt && extra && !late_reject && s.full) {
+    // kind apc: AssignPointsToCorners' deduplication path against the model, inputs = the corner table + the attribute corner tables
+    const CornerTable *ct = impl.corner_table_.get();
+    const int nc = ct->num_corners(), nv = ct->num_vertices();
+    auto I = [](uint32_t x) { return x == 0xFFFFFFFFu ? std::string("-1") : U(x); };
+    std::vector<uint32_t> opp(nc), vc(nv);
+    for (int c = 0; c < nc; c++) opp[c] = ct->opposite_corners_[CornerIndex(c)].value();
+    for (int v = 0; v < nv; v++) vc[v] = ct->vertex_corners_[VertexIndex(v)].value();
+    std::string h; for (size_t i = 0; i < impl.is_vert_hole_.size(); i++) h += impl.is_vert_hole_[i] ? '1' : '0';
+    std::string atts;
+    for (size_t a = 0; a < impl.attribute_data_.size(); a++) {
+      const MeshAttributeCornerTable &at = impl.attribute_data_[a].connectivity_data;
+      if (a) atts += ";";
+      std::string sb; std::vector<uint32_t> av(nc);
+      for (int c = 0; c < nc; c++) { sb += at.IsCornerOnSeam(CornerIndex(c)) ? '1' : '0'; av[c] = at.Vertex(CornerIndex(c)).value(); }
+      atts += (sb.empty() ? "-" : sb) + "/" + join(av, I);
+    }
+    std::vector<uint32_t> fl;
+    for (FaceIndex f(0); f < mesh.num_faces(); ++f) for (int k = 0; k < 3; k++) fl.push_back(mesh.face(f)[k].value());
+    *extra = "apc " + S(nc) + " " + S((int64_t)impl.is_vert_hole_.size()) + " " + join(opp, I) + " " + join(vc, I) + " " + (h.empty() ? "-" : h) + " " + atts +
+             "\t" + "np=" + S((int64_t)mesh.num_points()) + " faces=" + join(fl, I);
+  }
   bool mm = false;
-  std::string t = table_text(impl, ret, (!s.full && !s.b) ? nullptr : violation, (int)s.syms.size(), &mm);
+  std::string t = table_text(impl, ret, ((!s.full && !s.b) || s.natt) ? nullptr : violation, (int)s.syms.size(), &mm);
+
   if (mm && violation->empty()) *violation = "~";   // statistic only
   return t;
 }
 
 // Runs all scripts in forked children (batches); a child that dies or hangs identifies the script.
-static long g_startmm = 0, g_crashes = 0, g_hangs = 0, g_acc = 0, g_rej = 0, g_viol = 0;
+static long g_apc = 0, g_startmm = 0, g_crashes = 0, g_hangs = 0, g_acc = 0, g_rej = 0, g_viol = 0;
 static void run_all(Out &o, const std::vector<Script> &scripts, const std::string &tmp) {
   size_t i = 0;
   while (i < scripts.size()) {
@@ -253,9 +294,11 @@ static void run_all(Out &o, const std::vector<Script> &scripts, const std::strin
       for (size_t k = i; k < scripts.size(); k++) {
         alarm(20);
         std::string viol;
-        std::string r = run_script(scripts[k], &viol);
+        std::string extra;
+        std::string r = run_script(scripts[k], &viol, &extra);
         alarm(0);
         fprintf(f, "%zu\t%s\t%s\n", k, viol.empty() ? "-" : viol.c_str(), r.c_str());
+        if (!extra.empty()) fprintf(f, "X\t%s\n", extra.c_str());
         fflush(f);
       }
       fclose(f);
@@ -267,6 +310,7 @@ static void run_all(Out &o, const std::vector<Script> &scripts, const std::strin
     while (std::getline(in, line)) {
       size_t t1 = line.find('\t'), t2 = line.find('\t', t1 + 1);
       if (t1 == std::string::npos || t2 == std::string::npos) break;    // truncated last line
+      if (line[0] == 'X') { o.c(line.substr(t1 + 1, t2 - t1 - 1), line.substr(t2 + 1)); g_apc++; continue; }
       size_t k = std::stoul(line.substr(0, t1));
       std::string viol = line.substr(t1 + 1, t2 - t1 - 1), r = line.substr(t2 + 1);
       o.c(lhs_of(scripts[k]), r);
@@ -610,6 +654,22 @@ int main(int argc, char **argv) {
       Script m; if (gen_live_suffix(b, r, &m)) { hs.push_back(m); made++; if (r.chance(30)) hs.push_back(mutate(m, r)); }
     }
     o.note("live-suffix scripts=" + S(made)); }
+  // attribute connectivity data: the same connectivity scripts with num_attribute_data = 1..3 and hostile seam bits; the
+  // corner table must equal the model's (run with remove_invalid_vertices = false), and AssignPointsToCorners' deduplication
+  // path (not modelled) is SEARCHED: every face index of the decoded Mesh must be < num_points, no crash / hang
+  { size_t base_n = hs.size(); int made = 0, want = thorough ? 20000 : 3000;
+    for (size_t i = 0; i < base_n && made < want; i++) {
+      const Script &b = hs[r.below(base_n)];
+      if (b.syms.size() > 120) continue;
+      Script a = b.full ? b : to_full(b, r);
+      a.natt = 1 + (int)r.below(3); a.seam_seed = r.next(); a.seam_pct = r.chance(20) ? 0 : r.chance(20) ? 100 : (int)r.range(5, 95);
+      hs.push_back(a); made++;
+    }
+    for (size_t i = 0; i < valid.size() && i < (thorough ? 600u : 150u); i++) {
+      Script f = valid[i]; if (f.syms.size() > 300) continue;
+      f.full = true; f.b = (int64_t)std::count(f.syms.begin(), f.syms.end(), 1u); f.a = valid[i].a - f.b; if (f.a < 0) continue;
+      make_encodable(f); f.natt = 1 + (int)r.below(2); f.seam_seed = r.next(); f.seam_pct = (int)r.range(0, 100); hs.push_back(f);
+    } }
   // the two witnesses of Properties_EB.v (C03_eb_*_refuted) as well-formed 2.2 headers through the real DecodeConnectivity()
   { Script s; s.full = true; s.a = 5; s.nf = 4; s.b = 0; s.syms = {7, 3, 3}; s.bits.assign(5, true); hs.push_back(s);
     Script d; d.full = true; d.a = 3; d.nf = 2; d.b = 1; d.syms = {7, 1}; d.evs = {{1, 0, 1}}; d.bits.assign(2, false); hs.push_back(d);
@@ -633,6 +693,6 @@ int main(int argc, char **argv) {
   for (Script &s : hs) if (!s.full && (int64_t)s.syms.size() > s.nf) s.nf = (int64_t)s.syms.size();
   run_all(o, hs, std::string(argv[3]) + ".tmp");
   o.note("hostile scripts=" + S((long)hs.size()) + " exhaustive=" + S((long)n_exh) + " accepted=" + S(g_acc) + " rejected=" + S(g_rej) +
-         " crashes=" + S(g_crashes) + " hangs=" + S(g_hangs) + " accept_invalid=" + S(g_viol) + " accepted_with_start_face_on_nonmatching_edges=" + S(g_startmm));
+         " crashes=" + S(g_crashes) + " hangs=" + S(g_hangs) + " accept_invalid=" + S(g_viol) + " assign_points_dedup_cases=" + S(g_apc) + " accepted_with_start_face_on_nonmatching_edges=" + S(g_startmm));
   return 0;
 }
